@@ -159,8 +159,7 @@ static void runSweeps(Ctx& c)
 	uint64_t hi = C16_PART + 1 == C16_PARTS ? oracleN : modelN + (oracleN - modelN) / C16_PARTS * (C16_PART + 1);
 	ForL0<Func::sqrt, 0>::sweep(c, nullptr, lo, hi, hi - lo);
 	ForL0<Func::cnst, 0>::sweep(c, nullptr, lo, hi, hi - lo);
-	c.stats.count("sweep.log2_model_upto", logModel);
-	c.stats.count("sweep.log2_oracle_upto", logOracle);
+	c.stats.count(fmt("sweep.parts_done.model_upto_2^%u.oracle_upto_2^%u", logModel, logOracle));
 }
 
 // ---------- boundary points ----------
@@ -303,7 +302,7 @@ static void runLog(Ctx& c, Rng& rng, bool wide)
 		s.op(fmt("%s %llu %llu", wide ? "logsweep64" : "logsweep32", (ull)lo, (ull)(lo + (1ull << 16)))); s.res(chk.str());
 		c.stats.evaluations += 1ull << 16;
 	}
-	c.stats.count(wide ? "log64.exhaustive_upto" : "log32.exhaustive_upto", lim);
+	c.stats.count(wide ? "log64.exhaustive_values" : "log32.exhaustive_values", lim);
 	if (!wide && c.thorough) {	// every 32-bit value against the oracle (no model)
 		for (uint64_t v = 1; v < (1ull << 32); ++v)
 			if ((uint64_t)momo::internal::UIntMath<uint32_t>::Log2((uint32_t)v) != (uint64_t)(63 - __builtin_clzll(v))) { c.fail("C16 Log2(32-bit): v=%llu", (ull)v); break; }
@@ -729,7 +728,6 @@ int main(int argc, char** argv)
 	runContainers(c, rng);	// every configuration, under ASan + UBSan
 	c.stats.count("cont.sanitizer_build");
 #else
-	c.stats.count("part", C16_PART);
 	runContainers(c, rng);
 	runBoundaries(c, rng);
 	if (C16_PART == 0) runLog(c, rng, true);
